@@ -7,7 +7,7 @@
 (* the stable insertion sort of Builtins.tla; TLC checks its defining      *)
 (* predicate (permutation, ordered, ties in input order) on every array.   *)
 (***************************************************************************)
-EXTENDS JMES, Json, Toks
+EXTENDS JMES, Json, Toks, SequencesExt
 
 CONSTANTS Emit, Prop, Lengths, Seeds
 
@@ -76,11 +76,38 @@ ReExprs == {
   Fn(<<115,111,114,116,95,98,121>>, <<X, Comma, AmpT>> \o Fn(<<116,111,95,115,116,114,105,110,103>>, Fn(<<115,111,114,116,95,98,121>>, <<V, Comma, AmpT>> \o Fn(<<116,111,95,115,116,114,105,110,103>>, <<Nf>>)) \o <<LB, IntT(<<48>>), RB, Dot, Nf>>)) \o <<LB, Star, RB, Dot, Kf>>,
   Fn(<<115,111,114,116,95,98,121>>, <<X, Comma, AmpT>> \o <<LetT, VarT(<<36,109>>), AssignT>> \o SortV \o <<InT, VarT(<<36,109>>), LB, IntT(<<48>>), RB, Dot, Nf>>) \o <<LB, Star, RB, Dot, Kf>> }
 
+\* ... and the same with 70 groups of 70 members (beyond the sizes up to which an implementation may avoid its
+\* general path: scratch buffers kept per evaluation, insertion sort for short arrays): group g holds the values
+\* 101 * ((29 g) mod 71) + ((37 j + g) mod 101), so the groups are ordered by (29 g) mod 71 whatever member is
+\* taken as the key, and neither the groups nor the members are in order to begin with
+BigG == 70
+BigGrp(g, G) == Grp(g, [j \in 1..G |-> 101 * ((29 * g) % 71) + ((37 * j + g) % 101)])
+ReBigDoc(G) == Obj(<<Mem(<<120>>, Arr([g \in 1..G |-> BigGrp(g, G)]))>>)
+\* what the specification says these expressions mean is computed in closed form (TLC's Eval of 70 sorts of 70
+\* elements inside a sort takes hours): the groups in the order of (29 g) mod 71, or the first / last of them;
+\* the closed form is checked against Eval on 6 groups of 6 members (BigReentrantLemma)
+GroupsInOrder(G) == SetToSortSeq(1..G, LAMBDA a, b : (29 * a) % 71 < (29 * b) % 71)
+ReBigExprs == {
+  <<"asc", Fn(<<115,111,114,116,95,98,121>>, <<X, Comma, AmpT>> \o SortV \o <<LB, IntT(<<48>>), RB, Dot, Nf>>) \o <<LB, Star, RB, Dot, Kf>> >>,
+  <<"asc", Fn(<<115,111,114,116,95,98,121>>, <<X, Comma, AmpT>> \o SortV \o <<LB, IntT(<<45,49>>), RB, Dot, Nf>>) \o <<LB, Star, RB, Dot, Kf>> >>,
+  <<"asc", Fn(<<115,111,114,116,95,98,121>>, <<X, Comma, AmpT>> \o Fn(<<116,111,95,115,116,114,105,110,103>>, SortV \o <<LB, IntT(<<48>>), RB, Dot, Nf, PlusT, Json(<<96,49,48,48,48,48,96>>)>>)) \o <<LB, Star, RB, Dot, Kf>> >>,
+  <<"asc", Fn(<<115,111,114,116,95,98,121>>, <<X, Comma, AmpT>> \o Fn(<<115,111,114,116,95,98,121>>, <<V, Comma, AmpT>> \o Fn(<<116,111,95,115,116,114,105,110,103>>, <<Nf, PlusT, Json(<<96,49,48,48,48,48,96>>)>>)) \o <<LB, IntT(<<48>>), RB, Dot, Nf>>) \o <<LB, Star, RB, Dot, Kf>> >>,
+  <<"max", Fn(<<109,97,120,95,98,121>>, <<X, Comma, AmpT>> \o SortV \o <<LB, IntT(<<48>>), RB, Dot, Nf>>) \o <<Dot, Kf>> >>,
+  <<"min", Fn(<<109,105,110,95,98,121>>, <<X, Comma, AmpT>> \o Fn(<<109,97,120,95,98,121>>, <<V, Comma, AmpT, Nf>>) \o <<Dot, Nf>>) \o <<Dot, Kf>> >>,
+  <<"asc", Fn(<<115,111,114,116,95,98,121>>, <<X, Comma, AmpT>> \o Fn(<<115,111,114,116>>, <<V, LB, Star, RB, Dot, Nf>>) \o <<LB, IntT(<<48>>), RB>>) \o <<LB, Star, RB, Dot, Kf>> >>,
+  <<"asc", Fn(<<115,111,114,116,95,98,121>>, <<X, Comma, AmpT>> \o <<LetT, VarT(<<36,109>>), AssignT>> \o SortV \o <<InT, VarT(<<36,109>>), LB, IntT(<<48>>), RB, Dot, Nf>>) \o <<LB, Star, RB, Dot, Kf>> >> }
+ReBigExpected(kind, G) == LET o == GroupsInOrder(G) IN
+  CASE kind = "asc" -> Arr([i \in 1..G |-> JInt(o[i])])
+    [] kind = "max" -> JInt(o[G])
+    [] kind = "min" -> JInt(o[1])
+
 Check ==
   LET doc   == DocOf(inst)
       cases == { [expr |-> Render(e), adm |-> Admissible(e, doc)] : e \in Exprs }
       recases == IF inst.n = 0 /\ inst.pat = 1 /\ ~inst.str
-                 THEN { [expr |-> Render(e), adm |-> Admissible(e, ReDoc), doc |-> ReDoc] : e \in ReExprs } ELSE {}
+                 THEN { [expr |-> Render(e), adm |-> Admissible(e, ReDoc), doc |-> ReDoc] : e \in ReExprs }
+                 ELSE IF inst.n = 0 /\ inst.pat = 2 /\ ~inst.str
+                 THEN { [expr |-> Render(e[2]), adm |-> {ReBigExpected(e[1], BigG)}, doc |-> ReBigDoc(BigG)] : e \in ReBigExprs } ELSE {}
       case  == [p |-> Prop, kind |-> "search", doc |-> doc,
                 multi |-> { [expr |-> c.expr, adm |-> c.adm, doc |-> doc] : c \in cases } \cup recases]
       vals  == ArrOf(inst).a
@@ -90,6 +117,8 @@ Check ==
   IN /\ Emit => PrintT("CASE " \o ToJson(case))
      \* the defining predicate of a stable sort
      /\ Named(\A c \in recases : \A o \in c.adm : IsVal(o), "ReentrantFamilyIsWellTyped")
+     /\ Named((inst.n = 0 /\ inst.pat = 2 /\ ~inst.str) =>
+                 \A e \in ReBigExprs : Admissible(e[2], ReBigDoc(6)) = {ReBigExpected(e[1], 6)}, "BigReentrantLemma")
      /\ Named(Len(out) = Len(vals) /\ \A j \in 1..Len(vals) : \E m \in 1..Len(out) : out[m] = vals[j], "Permutation")
      /\ Named(out = InsSortByKeys(vals, keys), "RankSortEqualsInsertionSort")
      /\ Named(\A m \in 1..(Len(out) - 1) : ~KeyLess(ObjGet(out[m + 1], <<107>>), ObjGet(out[m], <<107>>)), "Ordered")
